@@ -381,9 +381,93 @@ void reg_all_n()
     Arr<L, I, 3, float, 3>::reg();
     Arr<L, I, 4, double, 4>::reg();
 }
+// Sparse boxes that no array-backed field of this harness can afford (a 3-D box 300 x 2 x 1 needs 512^3 cells of curve
+// storage): the layer over identity<size1> gives the flat positions without storage. In-range coordinates must map to
+// pairwise distinct positions below the documented length.
+template <Lay L, size_t N>
+struct Thin {
+    using IV = cv::vector_d<std::size_t, N>;
+    using BI = layout_t<L, IV, ID>;
+    static std::string name() { return std::string("positions over identity, thin boxes/") + lay_name(L) + "/N=" + std::to_string(N); }
+    static Verdict run(const Case & c)
+    {
+        typename BI::configuration_t e;
+        ref::u128 len = 1, cells = 1;
+        uint64_t mx = 1;
+        for (size_t k = 0; k < N; ++k) {
+            e[k] = c.ext[k];
+            cells *= c.ext[k];
+            mx = std::max(mx, c.ext[k]);
+        }
+        if (L == Lay::strided) {
+            len = cells;
+        } else {
+            for (size_t k = 0; k < N; ++k) {
+                len *= ref::round_pow2(mx);
+            }
+        }
+        covfie::field<BI> fi(pack(e, std::monostate{}));
+        typename covfie::field<BI>::view_t vi(fi);
+        std::vector<uint64_t> pos;
+        pos.reserve(size_t(cells));
+        Verdict bad;
+        for_box(c.ext, [&](const std::vector<uint64_t> & cc) {
+            if (bad) {
+                return;
+            }
+            typename covfie::field<BI>::coordinate_t x;
+            for (size_t k = 0; k < N; ++k) {
+                x[k] = cc[k];
+            }
+            uint64_t p = vi.at(x)[0];
+            if (ref::u128(p) >= len) {
+                bad = "flat position " + std::to_string(p) + " of coordinate " + cstr(cc) + " is not below the documented storage length";
+            }
+            pos.push_back(p);
+        });
+        if (bad) {
+            return bad;
+        }
+        std::sort(pos.begin(), pos.end());
+        for (size_t i = 1; i < pos.size(); ++i) {
+            if (pos[i] == pos[i - 1]) {
+                return "two in-range coordinates of the box " + cstr(c.ext) + " share flat position " + std::to_string(pos[i]);
+            }
+        }
+        Hasher h;
+        h.vec(c.ext);
+        label("thin box (one long axis), positions over identity");
+        record(name(), true, h.h, [&] { return c.to_json(); });
+        return std::nullopt;
+    }
+    static void campaign()
+    {
+        if (L == Lay::morton_bmi2 && !have_bmi2()) {
+            return;
+        }
+        // one long axis (up to 2^17 for N = 2, 2^13 / 2^10 beyond; documented length < 2^64), the others 1..3; at most 2^18 cells
+        const unsigned top = N == 1 ? 20 : N == 2 ? 17 : N == 3 ? 13 : 10;
+        auto g = rc::gen::map(rc::gen::tuple(in_range<size_t>(0, N - 1), in_range<unsigned>(5, top), in_range<int>(-2, 2), rc::gen::container<std::vector<uint64_t>>(N, in_range<uint64_t>(1, 3))), [](std::tuple<size_t, unsigned, int, std::vector<uint64_t>> t) {
+            Case c;
+            c.ext = std::get<3>(t);
+            c.ext[std::get<0>(t)] = uint64_t(int64_t(uint64_t(1) << std::get<1>(t)) + std::get<2>(t));
+            c.construct = "identity";
+            return c;
+        });
+        rc_campaign<Case>(name(), tier(40, 1200), 100, g, run);
+    }
+    static void reg()
+    {
+        add_inst(name(), campaign, [](const json & j) { return run(Case::from_json(j)); });
+    }
+};
+
 template <Lay L>
 void reg_layer()
 {
+    Thin<L, 2>::reg();
+    Thin<L, 3>::reg();
+    Thin<L, 4>::reg();
     reg_all_n<L, std::size_t>();
     reg_all_n<L, unsigned>();
     reg_all_n<L, int>();
